@@ -883,7 +883,7 @@ def judge(ck, case, obs, mo, d, rdef):
 
 
 def run(ck: common.Check):
-    ck.prove(["GeffProps.C10"])
+    ck.prove(["GeffProps.C10", "GeffProps.C10Links"])
     ck.rule = ("a case = (entry point, graph, caller metadata, axis_* lists, flags); entry points: write_arrays (incl. "
                "props=None, unsquish, validation off), write_dicts, geff.write on networkx / rustworkx / spatial-graph; graphs "
                "of 0..40 nodes with 0-3 axis coordinates (float64/float32/int/uint, incl. -0.0 and 1e300), 0-3 further "
